@@ -237,6 +237,23 @@ def phase_C05(tier, seed, st, stats):
             if f["kind"] in ("alloc", "copy"):
                 viol.append({"kind": f["kind"], "fn": f.get("fn"), "case": f.get("case"),
                              "detail": "configuration %s: %s" % (name, f.get("detail"))})
+    # informational only: the same measurement in a build with the second installed toolchain.  The property
+    # quantifies over inputs and CPU-feature configurations of the repository's toolchain; what another standard
+    # library allocates inside utf8.RuneCount is recorded, not judged.
+    other_go = "/opt/veriftools/go1.26.8/bin/go"
+    if os.path.exists(other_go):
+        try:
+            ob = vlib.build_variant("go1268", {}, gobin=other_go)
+            outdir = os.path.join(BUILD, "run", "C05_go1.26.8")
+            s3 = vlib.run_harness("C05", tier, seed, outdir, binary=ob)
+            fs = [f for f in (s3.get("findings") or []) if f["kind"] in ("alloc", "copy")]
+            cov["other_toolchain_go1.26.8_informational"] = {
+                "evaluations": s3.get("evaluations"), "allocating_shapes": len(fs),
+                "examples": ["%s: %s" % (f.get("fn"), str(f.get("detail"))[:160]) for f in fs[:4]],
+                "note": "not a verdict: with go1.26.8 unicode/utf8.RuneCount converts its argument to a string (144 B for a 130-byte "
+                        "needle), so bytcase.Count / Cut allocate once per call after a first match; the repository's toolchain does not"}
+        except Exception as e:  # never lets the informational run decide or break the check
+            cov["other_toolchain_go1.26.8_informational"] = {"error": str(e)[:300]}
     cov["effect_summary"] = effect_summary_stats()
     return cov, viol
 
